@@ -224,6 +224,9 @@ func (g *valGen) value(t *VT, required bool) c10rt.Spec {
 	g.budget--
 	switch t.K {
 	case "prim":
+		if t.Cred {
+			return c10rt.Spec{K: "str", S: []byte(vh.Pick(g.r, []string{"tok", "eyJhbGciOi.J9.x-y_z", "a/b+c=", "é"}))}
+		}
 		return g.prim(t.P, t.V)
 	case "opt":
 		if g.r.Chance(1, 3) {
@@ -403,7 +406,14 @@ func RandomTB(r *vh.RNG, responseMetadata bool) *Design {
 		m := Meth{Name: methodNames[(offm+i)%len(methodNames)], Payload: io(), Result: io()}
 		if m.Payload.T == nil && g.r.Chance(1, 4) { // credentials travel as request metadata
 			m.Security = vh.Pick(g.r, secKinds)
-			m.Payload.Fields = insertSec(m.Payload.Fields, m.Security, g.r.Intn(len(m.Payload.Fields)+1), g.r.Bool(), 900+g.r.Intn(50))
+			m.Payload.Fields = requireSec(insertSec(m.Payload.Fields, m.Security, g.r.Intn(len(m.Payload.Fields)+1), g.r.Bool(), 900+g.r.Intn(50)), g.r.Bool)
+		}
+		if g.r.Bool() {
+			m.Order = append([]string{}, canonicalOrder...)
+			for i := len(m.Order) - 1; i > 0; i-- {
+				j := g.r.Intn(i + 1)
+				m.Order[i], m.Order[j] = m.Order[j], m.Order[i]
+			}
 		}
 		if ps := g.primFields(m.Payload); len(ps) > 0 && g.r.Chance(1, 3) {
 			m.Metadata, _ = g.subset(ps, 1, 2)
@@ -636,6 +646,22 @@ func emitDesign(root string, td *tbDesign, r *vh.RNG, casesPerMethod int) (err e
 						gp := &valGen{r: r, mode: 0, budget: 40}
 						gr := &valGen{r: r, mode: 0, budget: 40}
 						tm.Cases = append(tm.Cases, tbCase{Case: c10rt.Case{ID: len(tm.Cases), Payload: gp.value(tm.PVT, true), Result: gr.value(tm.RVT, true), DropMD: n}, Dropped: true})
+					}
+				}
+			}
+		}
+		// ... and each REQUIRED credential attribute goa moves to the metadata itself
+		if pf, isObj, _ := o.ioFields(m.Payload); isObj && m.Security != "" {
+			for _, n := range m.SecNames(d) {
+				for _, f := range pf {
+					if f.Name == n && f.Req {
+						key := "authorization"
+						if m.Security == "basic" {
+							key = n
+						}
+						gp := &valGen{r: r, mode: 0, budget: 40}
+						gr := &valGen{r: r, mode: 0, budget: 40}
+						tm.Cases = append(tm.Cases, tbCase{Case: c10rt.Case{ID: len(tm.Cases), Payload: gp.value(tm.PVT, true), Result: gr.value(tm.RVT, true), DropMD: key}, Dropped: true})
 					}
 				}
 			}
